@@ -67,8 +67,8 @@ def num_of(key, prefix):
     return key if prefix is None else int(key[key.rfind('-') + 1:])
 
 
-def seq_ops(index_only):
-    p = st.sampled_from(PREFIXES)
+def seq_ops(index_only, prefixes=PREFIXES):
+    p = st.sampled_from(prefixes)
     side = st.sampled_from(['front', 'back'])
     v = st.sampled_from(VALS)
     ttl = st.sampled_from([None, None, None, 5, 0.125])
@@ -102,7 +102,10 @@ class Sequential(SubCheck):
         @st.composite
         def case(draw):
             origin = draw(st.sampled_from(['cache', 'cache', 'index']))
-            ops = draw(st.lists(seq_ops(origin == 'index'), min_size=2, max_size=40 if tier == 'quick' else 100))
+            # every case works on a few queues only (drawn from the whole prefix alphabet), so that each of them sees a real
+            # history: several pushes on both sides, expiring items, pulls and peeks from both ends
+            pool = draw(st.lists(st.sampled_from(PREFIXES), min_size=1, max_size=4, unique=True))
+            ops = draw(st.lists(seq_ops(origin == 'index', pool), min_size=2, max_size=40 if tier == 'quick' else 100))
             return {'origin': origin, 'ops': ops}
 
         return case()
